@@ -42,6 +42,72 @@ fn sample_archives(rng: &mut Rng, quick: bool, st: &mut Stats) -> Vec<Vec<u8>> {
 }
 
 /// crafted hazard corpus for C08 (one archive / directory per hazard class)
+/// an archive whose leaf directories form a chain of [n] levels (each leaf holds one pointer to the next, the last
+/// one holds a tile), laid out front to back or back to front; built here because its hexadecimal form would not
+/// fit a case line
+fn chain_archive(n: usize, forward: bool) -> Vec<u8> {
+    let dir1 = |id: u64, run: u64, len: u64, off: u64| -> Vec<u8> {
+        let mut b = Vec::new();
+        for v in [1, id, run, len, off + 1] {
+            spec::put_varint(v, &mut b);
+        }
+        b
+    };
+    let tile = dir1(7, 1, 1, 0);
+    let mut leaf: Vec<u8>;
+    let root;
+    if forward {
+        // blob i (a pointer) precedes blob i+1; sizes depend on the offsets they encode: least fixed point
+        let mut sizes: Vec<u64> = vec![5; n + 1];
+        sizes[n] = tile.len() as u64;
+        let mut offs: Vec<u64> = vec![0; n + 1];
+        loop {
+            for i in 1..=n {
+                offs[i] = offs[i - 1] + sizes[i - 1];
+            }
+            let mut changed = false;
+            for i in 0..n {
+                let s = dir1(0, 0, sizes[i + 1], offs[i + 1]).len() as u64;
+                if s != sizes[i] {
+                    sizes[i] = s;
+                    changed = true;
+                }
+            }
+            if !changed {
+                break;
+            }
+        }
+        leaf = Vec::new();
+        for i in 0..n {
+            leaf.extend_from_slice(&dir1(0, 0, sizes[i + 1], offs[i + 1]));
+        }
+        leaf.extend_from_slice(&tile);
+        root = dir1(0, 0, sizes[0], 0);
+    } else {
+        // back to front: the tile directory first, every pointer blob after the blob it names
+        leaf = tile.clone();
+        let (mut off, mut len) = (0u64, leaf.len() as u64);
+        for _ in 0..n {
+            let p = dir1(0, 0, len, off);
+            off = leaf.len() as u64;
+            len = p.len() as u64;
+            leaf.extend_from_slice(&p);
+        }
+        root = dir1(0, 0, len, off);
+    }
+    let h = spec::SHeader {
+        root_off: 127, root_len: root.len() as u64, meta_off: 127 + root.len() as u64, meta_len: 0,
+        leaf_off: 127 + root.len() as u64, leaf_len: leaf.len() as u64, data_off: 127 + (root.len() + leaf.len()) as u64,
+        data_len: 1, addressed: 1, entries: 1, contents: 1, clustered: true, icomp: 1, tcomp: 1, ttype: 1,
+        minz: 0, maxz: 0, coords: [0; 6], cz: 0,
+    };
+    let mut f = spec::encode_header(&h);
+    f.extend_from_slice(&root);
+    f.extend_from_slice(&leaf);
+    f.push(1);
+    f
+}
+
 fn hazards() -> Vec<(String, Vec<u8>)> {
     let mut out: Vec<(String, Vec<u8>)> = Vec::new();
     let varint = |v: u64| {
@@ -574,6 +640,12 @@ pub fn gen(prop: &str, rng: &mut Rng, quick: bool, st: &mut Stats) -> Option<Vec
                 c.push(format!("dir_dec {} none {hb}", if k % 2 == 0 { "sync" } else { "async" }));
                 st.bump("varint_field_mutations");
             }
+            // leaf chains far deeper than any stack could follow (the depth limit must stop them)
+            for n in [1usize, 2, 3, 4, 1000, 300_000] {
+                c.push(format!("chk_nocrash_chain fwd {n:x}"));
+                c.push(format!("chk_nocrash_chain back {n:x}"));
+                st.bump("leaf_chains");
+            }
             for id in [0u64, 1, BASE32 - 1, BASE32, u64::MAX, 1 << 63] {
                 c.push(format!("zxy {id:x}"));
             }
@@ -633,6 +705,10 @@ pub fn run_chk(toks: &[&str]) -> Option<String> {
         ["chk_nocrash_hdr", b] => {
             let b = unhex_bytes(b);
             guard_chk(|| chk_nocrash_hdr(&b))
+        }
+        ["chk_nocrash_chain", dirn, n] => {
+            let b = chain_archive(unhex_u64(n) as usize, *dirn == "fwd");
+            guard_chk(|| chk_nocrash_arch(&b))
         }
         _ => return None,
     })
